@@ -101,3 +101,8 @@ Check (za_nil : zeros_added [] []).
 Check (za_keep : forall v ins outs, zeros_added ins outs -> zeros_added (v :: ins) (v :: outs)).
 Check (za_zero : forall s e ins outs, zeros_added ins outs -> zeros_added ins (mkV s e 0%Z :: outs)).
 End PinC15.
+
+(* evaluation glue: sharing the table and rows between output names = one tool run per output name *)
+From BT Require Proofs.EntryC15Glue.
+Check Proofs.EntryC15Glue.tool_run_shared_eq.
+
